@@ -26,9 +26,9 @@ ASSUMPTIONS = [
     "monotonicity slack 1e-12; inverse relative 1e-6 on 1.0001*CC0 <= cc <= 0.98*CCx",
 ]
 FLOORS = {
-    "quick": {"crops_lattice": 37, "crops_co2": 37, "lattice_evaluations": 400000, "ride_along_evaluations": 40000,
+    "quick": {"co2_custom_reference_checks": 1, "crops_lattice": 37, "crops_co2": 37, "lattice_evaluations": 400000, "ride_along_evaluations": 40000,
               "co2_initialisations": 1500, "inverse_checks": 10000},
-    "thorough": {"crops_lattice": 37, "crops_co2": 37, "lattice_evaluations": 2000000,
+    "thorough": {"co2_custom_reference_checks": 1, "crops_lattice": 37, "crops_co2": 37, "lattice_evaluations": 2000000,
                  "ride_along_evaluations": 400000, "co2_initialisations": 3000, "inverse_checks": 60000},
 }
 CASE_TIMEOUT = {"quick": 400, "thorough": 1500}
